@@ -1,10 +1,46 @@
 """C16 — reset / reinit / reuse leave no residue: structural clauses (DESIGN.md section 3 / C16)."""
-from lib import resetcovers, core
+from lib import resetcovers, core, cfg
+from lib.must import Must
 
 
 def run(chk):
     cfgj = core.load_json("rules/reset_covers.json")
     resetcovers.run(chk, cfgj)
+    # C16.b every override of the emitter event handlers runs its base handler on every path
+    R2 = "R-CALLS-BASE"
+    chk.rule(R2, "every override of on_attach / on_detach / on_reinit calls the handler it overrides on every path to each of its returns "
+                 "(the base handlers are the ones that clear the one-shot state and the containers checked by R-RESET-COVERS)")
+    units = ["asmjit/core/assembler.cpp", "asmjit/core/builder.cpp", "asmjit/core/compiler.cpp", "asmjit/x86/x86assembler.cpp", "asmjit/x86/x86builder.cpp",
+             "asmjit/x86/x86compiler.cpp", "asmjit/arm/a64assembler.cpp", "asmjit/arm/a64builder.cpp", "asmjit/arm/a64compiler.cpp"]
+    nov = 0
+    for u in units:
+        f = chk.facts(u, funcs=r"::(on_attach|on_detach|on_reinit)$")
+        for fn in cfg.load_functions(f):
+            ov = fn.raw.get("overrides") or []
+            if not ov or not fn.file.endswith(u.split("/")[-1]):
+                continue
+            base = ov[0]
+
+            def elem_fx(eid, x, base=base):
+                if x["k"] in ("call", "mcall") and x.get("callee") == base:
+                    return ((("base",),), ())
+                return None
+            m = Must(fn, elem_fx, None)
+            ok = True
+            where = None
+            for b, idx, r in fn.return_sites():
+                if ("base",) not in (m.before(r) or frozenset()):
+                    # `return Base::on_detach(code);` evaluates the call inside the return expression
+                    v = fn.e(fn.strip(fn.e(r).get("val", 0))) if fn.e(r).get("val") else None
+                    if v and v["k"] in ("call", "mcall") and v.get("callee") == base:
+                        continue
+                    ok, where = False, r
+            nov += 1
+            sn = fn.name.replace("asmjit::", "")
+            chk.ob(R2, sn, ok, loc=fn.loc(where) if where else "%s:%d" % (u, fn.line),
+                   detail="%s can return without having called %s" % (sn, base.replace("asmjit::", "")), key="callsbase|" + sn)
+    chk.floor(R2 + ":overrides", nov, 18)
+
     return chk.finish(
         level="other",
         explanation=("Reset-closure coverage over /repo's current source: for each class that owns arena-backed containers or "
